@@ -1134,4 +1134,45 @@ theorem c06_dyn_axis_fixed :
   subst ht
   rw [clipDim_unfold, if_neg (fun hc => h' hc.1)]
 
+/-! ## Remaining machine-arithmetic facts -/
+
+theorem sizeAt_le_prodNZ : ∀ (dims : List (Nat × Nat)) (axis : Nat),
+    sizeAt dims axis ≤ prodNZ (shapeOf dims) := by
+  intro dims
+  induction dims with
+  | nil => intro axis; simp [sizeAt, shapeOf, prodNZ]
+  | cons d ds ih =>
+    obtain ⟨size, stride⟩ := d
+    intro axis
+    have hp := prodNZ_pos (shapeOf ds)
+    cases axis with
+    | zero =>
+      simp only [sizeAt, List.getD_cons_zero, shapeOf, List.map_cons, prodNZ]
+      split
+      · omega
+      · exact Nat.le_mul_of_pos_right _ hp
+    | succ a =>
+      have := ih a
+      simp only [sizeAt, List.getD_cons_succ, shapeOf, List.map_cons, prodNZ] at *
+      split
+      · exact this
+      · exact Nat.le_trans this (Nat.le_mul_of_pos_left _ (by omega))
+
+/-- **C06.T3l** `append`'s `new_size = self.size(axis) + other.size(axis)` cannot wrap: both
+operands are sizes of accepted tensors, each `≤ isize::MAX`. -/
+theorem c06_T3_append_size_no_wrap {a b : List (Nat × Nat)} {n k : Nat} {m m' : Bool}
+    (ha : Accepted a n m) (hb : Accepted b k m') (axis : Nat) :
+    sizeAt a axis + sizeAt b axis < wordSize := by
+  have h1 := Nat.le_trans (sizeAt_le_prodNZ a axis) ha.shape_fits
+  have h2 := Nat.le_trans (sizeAt_le_prodNZ b axis) hb.shape_fits
+  have : isizeMax + isizeMax < wordSize := by decide
+  omega
+
+/-- Non-vacuity of T3k with a non-empty result: `t.slice((1..3, -2..))` of a 3×4 tensor on
+machine integers. -/
+example : M.trySliceR [(3, 4), (4, 1)] 12 [.span 1 3, .span 2 4] =
+    some ⟨6, 12, [(2, 4), (2, 1)]⟩ ∧
+    ItemsOk (M.toN [(3, 4), (4, 1)]) ([M.RItem.span 1 3, .span 2 4].map M.RItem.toN) :=
+  ⟨by decide, .cons ⟨by decide, by decide⟩ (.cons ⟨by decide, by decide⟩ (.nil _))⟩
+
 end RtenVerif.TensorBounds
